@@ -452,6 +452,7 @@ struct Sig {
     select_then_tuple: bool, // F45: bare `!` directly followed by an anonymous tuple term
     bodyless_fn_then_block: bool, // F46: a body-less function directly followed by a block (same chain or next step)
     multi_hole: bool, // F47 (with trivia): a """ string with an interpolation hole
+    empty_select: bool, // F48: `! []`
     in_pattern: bool,
 }
 fn unprotected_space(c: char) -> bool {
@@ -626,11 +627,21 @@ fn sig_chain(c: &Chain, in_hole: bool, sig: &mut Sig) {
 }
 fn sig_steps(chains: &[Chain], sig: &mut Sig) {
     for w in chains.windows(2) {
-        let ends_bare = match w[0].terms.last() {
-            Some(Term::Tuple(t)) => matches!(t.name, TupleName::Named(_)) && t.fields.is_empty(),
-            Some(Term::Match(Match::Tuple(mt))) => mt.name.is_some() && mt.fields.is_empty(),
-            _ => false,
-        };
+        fn term_ends_bare(t: &Term) -> bool {
+            match t {
+                Term::Tuple(t) => matches!(t.name, TupleName::Named(_)) && t.fields.is_empty(),
+                Term::Match(Match::Tuple(mt)) => mt.name.is_some() && mt.fields.is_empty(),
+                // a block that may be spliced away: look at the end of its last step
+                Term::Block(e) if e.branches.len() == 1 && e.branches[0].consequence.is_none() => e.branches[0]
+                    .condition
+                    .chains
+                    .last()
+                    .and_then(|c| c.terms.last())
+                    .is_some_and(term_ends_bare),
+                _ => false,
+            }
+        }
+        let ends_bare = w[0].terms.last().is_some_and(term_ends_bare);
         if ends_bare && chain_starts_with_paren(&w[1]) {
             sig.name_then_paren = true;
         }
@@ -731,7 +742,12 @@ fn sig_term(t: &Term, in_hole: bool, sig: &mut Sig) {
             }
             sig_term(inner, in_hole, sig)
         }
-        Term::Select(Some(cs), _) => cs.iter().for_each(|c| sig_chain(c, in_hole, sig)),
+        Term::Select(Some(cs), _) => {
+            if cs.is_empty() {
+                sig.empty_select = true;
+            }
+            cs.iter().for_each(|c| sig_chain(c, in_hole, sig))
+        }
         _ => {}
     }
 }
@@ -956,6 +972,26 @@ fn e2e(src: &str, with_out: bool) -> String {
     if comment_in_pattern {
         sigs.push("comment-in-pattern");
     }
+    {
+        // F44 (mechanism seen in the OUTPUT): a deferred trailing comment was flushed onto a line whose
+        // successor is a `~>` continuation line — the chain separator admits no comment there
+        let (_, _, offs, _) = scan_comments3(&out1);
+        let lines: Vec<&str> = out1.split('\n').collect();
+        let mut starts = vec![0usize];
+        for l in &lines {
+            starts.push(starts.last().unwrap() + l.len() + 1);
+        }
+        let hit = offs.iter().any(|o| {
+            let ln = starts.partition_point(|s| s <= o) - 1;
+            lines.get(ln + 1).is_some_and(|next| next.trim_start().starts_with("~>"))
+        });
+        if hit {
+            sigs.push("out-comment-before-continuation");
+        }
+    }
+    if sig.empty_select {
+        sigs.push("empty-select-sources");
+    }
     if sig.select_then_tuple {
         sigs.push("select-then-tuple");
     }
@@ -982,6 +1018,7 @@ fn e2e(src: &str, with_out: bool) -> String {
         // a comment directly after `=>` on its line, or a comment line followed by `=>` (F38)
         let norm = src.replace("\r\n", "\n");
         let mut prev_comment = false;
+        let mut prev_arrow = false; // the last code seen (ignoring blank and comment-only lines) ended in `=>`
         let mut hit = false;
         for line in norm.split('\n') {
             let t = line.trim();
@@ -989,12 +1026,17 @@ fn e2e(src: &str, with_out: bool) -> String {
                 hit = true;
             }
             if let Some(i) = line.find("//") {
-                if line[..i].trim_end().ends_with("=>") {
+                let code = line[..i].trim();
+                if code.ends_with("=>") || (code.is_empty() && prev_arrow) {
                     hit = true;
+                }
+                if !code.is_empty() {
+                    prev_arrow = code.ends_with("=>");
                 }
                 prev_comment = true;
             } else if !t.is_empty() {
                 prev_comment = false;
+                prev_arrow = t.ends_with("=>");
             }
         }
         if hit {
